@@ -146,25 +146,78 @@ theorem tags_lTime (r : GRow) : Tags (lTime r) false false false false false tru
     simp only [lTime_decomp, pat_trk, pat_etrk, pat_pt, pat_ept, pat_ele, pat_time, isInfix_two _ _ _ _ hA hB hC] <;>
     simp [isPrefix]
 
+/-! ### no line of the plain body opens or closes an `<extensions>` block -/
+
+structure NoExt (line : Str) : Prop where
+  ext : isInfix "<extensions>".toList line = false
+  eext : isInfix "</extensions>".toList line = false
+
+theorem pat_ext : "<extensions>".toList = '<' :: ['e', 'x', 't', 'e', 'n', 's', 'i', 'o', 'n', 's', '>'] := rfl
+theorem pat_eext : "</extensions>".toList = '<' :: ['/', 'e', 'x', 't', 'e', 'n', 's', 'i', 'o', 'n', 's', '>'] := rfl
+
+theorem noext_lTrk : NoExt lTrk := by constructor <;> decide
+theorem noext_lSeg : NoExt lSeg := by constructor <;> decide
+theorem noext_lEndPt : NoExt lEndPt := by constructor <;> decide
+theorem noext_lEndSeg : NoExt lEndSeg := by constructor <;> decide
+theorem noext_lEndTrk : NoExt lEndTrk := by constructor <;> decide
+theorem noext_lEndGpx : NoExt lEndGpx := by constructor <;> decide
+
+theorem noext_lName (name : Str) (h : '<' ∉ name) : NoExt (lName name) := by
+  have hA : '<' ∉ [' ', ' ', ' ', ' '] := by decide
+  have hB : '<' ∉ ('n' :: 'a' :: 'm' :: 'e' :: '>' :: name) := by simp [h]
+  have hC : '<' ∉ ['/', 'n', 'a', 'm', 'e', '>'] := by decide
+  constructor <;>
+    simp only [lName_decomp, pat_ext, pat_eext, isInfix_two _ _ _ _ hA hB hC] <;>
+    simp [isPrefix]
+
+theorem noext_lPt (r : GRow) : NoExt (lPt r) := by
+  have hA : '<' ∉ List.replicate 12 ' ' := by decide
+  have hB : '<' ∉ ('t' :: 'r' :: 'k' :: 'p' :: 't' :: ' ' :: 'l' :: 'a' :: 't' :: '=' :: '"' ::
+      (fixedWS 3 8 r.y ++ '"' :: ' ' :: 'l' :: 'o' :: 'n' :: '=' :: '"' :: (fixedWS 3 8 r.x ++ ['"', '>']))) := by
+    simp [num_avoid r.y '<' (by decide), num_avoid r.x '<' (by decide)]
+  constructor <;>
+    simp only [lPt_decomp, pat_ext, pat_eext, isInfix_one _ _ _ hA hB] <;>
+    simp [isPrefix]
+
+theorem noext_lEle (r : GRow) : NoExt (lEle r) := by
+  have hA : '<' ∉ List.replicate 16 ' ' := by decide
+  have hB : '<' ∉ ('e' :: 'l' :: 'e' :: '>' :: fixedWS 3 8 r.z) := by simp [num_avoid r.z '<' (by decide)]
+  have hC : '<' ∉ ['/', 'e', 'l', 'e', '>'] := by decide
+  constructor <;>
+    simp only [lEle_decomp, pat_ext, pat_eext, isInfix_two _ _ _ _ hA hB hC] <;>
+    simp [isPrefix]
+
+theorem noext_lTime (r : GRow) : NoExt (lTime r) := by
+  have hA : '<' ∉ List.replicate 16 ' ' := by decide
+  have hB : '<' ∉ ('t' :: 'i' :: 'm' :: 'e' :: '>' :: (printTime isoFmt r.t ++ ['Z'])) := by
+    simp [isoTime_avoid r.t '<' (by decide) (by decide) (by decide) (by decide)]
+  have hC : '<' ∉ ['/', 't', 'i', 'm', 'e', '>'] := by decide
+  constructor <;>
+    simp only [lTime_decomp, pat_ext, pat_eext, isInfix_two _ _ _ _ hA hB hC] <;>
+    simp [isPrefix]
+
 /-! ### effect of each line on the scanner state -/
 
 theorem gpxLine_notags (rf : List Tok) (geo : Bool) (st : GState) (line : Str)
-    (T : Tags line false false false false false false) : gpxLine rf geo st line = .ok st := by
+    (T : Tags line false false false false false false) (N : NoExt line) (hs : st.inExt = false) :
+    gpxLine rf geo st line = .ok st := by
   unfold gpxLine gpxPt gpxEndPt gpxEle gpxTime
-  simp only [T.trk, T.etrk, T.pt, T.ept, T.ele, T.time, Bool.false_eq_true, ↓reduceIte, bind, Except.bind, pure, Except.pure]
+  simp only [N.ext, hs, T.trk, T.etrk, T.pt, T.ept, T.ele, T.time, Bool.false_eq_true, ↓reduceIte, bind, Except.bind, pure, Except.pure]
   cases st.inTrk <;> cases st.inPt <;> simp
 
-theorem gpxLine_trk (rf : List Tok) (geo : Bool) (st : GState) :
-    gpxLine rf geo st lTrk = .ok ⟨true, false, st.pos, st.tps, st.tracks ++ [[]]⟩ := by
+theorem gpxLine_trk (rf : List Tok) (geo : Bool) (st : GState) (hs : st.inExt = false) :
+    gpxLine rf geo st lTrk = .ok ⟨true, false, st.pos, st.tps, st.tracks ++ [[]], false⟩ := by
   have T := tags_lTrk
+  have N := noext_lTrk
   unfold gpxLine gpxPt gpxEndPt gpxEle gpxTime
-  simp only [T.trk, T.etrk, T.pt, T.ept, T.ele, T.time, Bool.false_eq_true, ↓reduceIte, bind, Except.bind, pure, Except.pure]
+  simp only [N.ext, hs, T.trk, T.etrk, T.pt, T.ept, T.ele, T.time, Bool.false_eq_true, ↓reduceIte, bind, Except.bind, pure, Except.pure]
 
-theorem gpxLine_endTrk (rf : List Tok) (geo : Bool) (st : GState) :
-    gpxLine rf geo st lEndTrk = .ok ⟨false, st.inPt, st.pos, st.tps, st.tracks⟩ := by
+theorem gpxLine_endTrk (rf : List Tok) (geo : Bool) (st : GState) (hs : st.inExt = false) :
+    gpxLine rf geo st lEndTrk = .ok ⟨false, st.inPt, st.pos, st.tps, st.tracks, false⟩ := by
   have T := tags_lEndTrk
+  have N := noext_lEndTrk
   unfold gpxLine gpxPt gpxEndPt gpxEle gpxTime
-  simp only [T.trk, T.etrk, T.pt, T.ept, T.ele, T.time, Bool.false_eq_true, ↓reduceIte, bind, Except.bind, pure, Except.pure]
+  simp only [N.ext, hs, T.trk, T.etrk, T.pt, T.ept, T.ele, T.time, Bool.false_eq_true, ↓reduceIte, bind, Except.bind, pure, Except.pure]
 
 theorem split_lPt (r : GRow) :
     splitOnChar '"' (lPt r) = ["            <trkpt lat=".toList, fixedWS 3 8 r.y, " lon=".toList, fixedWS 3 8 r.x, ">".toList] := by
@@ -175,11 +228,12 @@ theorem split_lPt (r : GRow) :
 
 theorem gpxLine_pt (rf : List Tok) (geo : Bool) (pos : Option (Dec × Dec × Dec)) (tps : Option Stamp)
     (tracks : List (List RRow)) (inPt : Bool) (r : GRow) :
-    gpxLine rf geo ⟨true, inPt, pos, tps, tracks⟩ (lPt r)
-      = .ok ⟨true, true, some ((r.x.toInt, 8), (r.y.toInt, 8), (0, 0)), tps, tracks⟩ := by
+    gpxLine rf geo ⟨true, inPt, pos, tps, tracks, false⟩ (lPt r)
+      = .ok ⟨true, true, some ((r.x.toInt, 8), (r.y.toInt, 8), (0, 0)), tps, tracks, false⟩ := by
   have T := tags_lPt r
+  have N := noext_lPt r
   unfold gpxLine gpxPt gpxEndPt gpxEle gpxTime
-  simp only [T.trk, T.etrk, T.pt, T.ept, T.ele, T.time, Bool.false_eq_true, ↓reduceIte, split_lPt, nth, List.getElem?_cons_succ, List.getElem?_cons_zero, parseDec_fixedWS, bind, Except.bind, pure, Except.pure]
+  simp only [N.ext, T.trk, T.etrk, T.pt, T.ept, T.ele, T.time, Bool.false_eq_true, ↓reduceIte, split_lPt, nth, List.getElem?_cons_succ, List.getElem?_cons_zero, parseDec_fixedWS, bind, Except.bind, pure, Except.pure]
 
 theorem tagText_lEle (r : GRow) : tagText (lEle r) = .ok (fixedWS 3 8 r.z) := by
   unfold tagText lEle
@@ -201,12 +255,13 @@ theorem tagText_lEle (r : GRow) : tagText (lEle r) = .ok (fixedWS 3 8 r.z) := by
 
 theorem gpxLine_ele (rf : List Tok) (geo : Bool) (p : Dec × Dec × Dec) (tps : Option Stamp)
     (tracks : List (List RRow)) (r : GRow) :
-    gpxLine rf geo ⟨true, true, some p, tps, tracks⟩ (lEle r)
-      = .ok ⟨true, true, some (p.1, p.2.1, if geo then (r.z.toInt, 8) else p.2.2), tps, tracks⟩ := by
+    gpxLine rf geo ⟨true, true, some p, tps, tracks, false⟩ (lEle r)
+      = .ok ⟨true, true, some (p.1, p.2.1, if geo then (r.z.toInt, 8) else p.2.2), tps, tracks, false⟩ := by
   have T := tags_lEle r
+  have N := noext_lEle r
   obtain ⟨x, y, z⟩ := p
   unfold gpxLine gpxPt gpxEndPt gpxEle gpxTime
-  simp only [T.trk, T.etrk, T.pt, T.ept, T.ele, T.time, Bool.false_eq_true, ↓reduceIte, tagText_lEle, parseDec_fixedWS, bind, Except.bind, pure, Except.pure]
+  simp only [N.ext, T.trk, T.etrk, T.pt, T.ept, T.ele, T.time, Bool.false_eq_true, ↓reduceIte, tagText_lEle, parseDec_fixedWS, bind, Except.bind, pure, Except.pure]
 
 theorem tagText_lTime (r : GRow) : tagText (lTime r) = .ok (printTime isoFmt r.t ++ ['Z']) := by
   unfold tagText lTime
@@ -240,13 +295,14 @@ def ReadsIso (rf : List Tok) : Prop :=
 
 theorem gpxLine_time (rf : List Tok) (hrf : ReadsIso rf) (geo : Bool) (p : Option (Dec × Dec × Dec)) (tps : Option Stamp)
     (tracks : List (List RRow)) (r : GRow) (ht : Fits r.t) :
-    gpxLine rf geo ⟨true, true, p, tps, tracks⟩ (lTime r) = .ok ⟨true, true, p, some (project rf r.t), tracks⟩ := by
+    gpxLine rf geo ⟨true, true, p, tps, tracks, false⟩ (lTime r) = .ok ⟨true, true, p, some (project rf r.t), tracks, false⟩ := by
   have T := tags_lTime r
+  have N := noext_lTime r
   obtain ⟨suf, hs⟩ := hrf.2 r.t
   have hread : readTimestamp rf (printTime isoFmt r.t ++ ['Z']) = some (project rf r.t) := by
     rw [hs, readTimestamp_printTime_suffix rf hrf.1 r.t ht suf, applyCodes_epoch rf r.t hrf.1.1]
   unfold gpxLine gpxPt gpxEndPt gpxEle gpxTime
-  simp only [T.trk, T.etrk, T.pt, T.ept, T.ele, T.time, Bool.false_eq_true, ↓reduceIte, tagText_lTime, hread, bind, Except.bind, pure, Except.pure]
+  simp only [N.ext, T.trk, T.etrk, T.pt, T.ept, T.ele, T.time, Bool.false_eq_true, ↓reduceIte, tagText_lTime, hread, bind, Except.bind, pure, Except.pure]
 
 theorem appendLast_concat (ts : List (List RRow)) (cur : List RRow) (r : RRow) :
     appendLast (ts ++ [cur]) r = .ok (ts ++ [cur ++ [r]]) := by
@@ -255,12 +311,13 @@ theorem appendLast_concat (ts : List (List RRow)) (cur : List RRow) (r : RRow) :
 
 theorem gpxLine_endPt (rf : List Tok) (geo : Bool) (p : Dec × Dec × Dec) (t : Stamp)
     (ts : List (List RRow)) (cur : List RRow) (inPt : Bool) :
-    gpxLine rf geo ⟨true, inPt, some p, some t, ts ++ [cur]⟩ lEndPt
-      = .ok ⟨true, false, some p, some t, ts ++ [cur ++ [⟨p.1, p.2.1, p.2.2, t⟩]]⟩ := by
+    gpxLine rf geo ⟨true, inPt, some p, some t, ts ++ [cur], false⟩ lEndPt
+      = .ok ⟨true, false, some p, some t, ts ++ [cur ++ [⟨p.1, p.2.1, p.2.2, t⟩]], false⟩ := by
   have T := tags_lEndPt
+  have N := noext_lEndPt
   obtain ⟨x, y, z⟩ := p
   unfold gpxLine gpxPt gpxEndPt gpxEle gpxTime
-  simp only [T.trk, T.etrk, T.pt, T.ept, T.ele, T.time, Bool.false_eq_true, ↓reduceIte, appendLast_concat, bind, Except.bind, pure, Except.pure]
+  simp only [N.ext, T.trk, T.etrk, T.pt, T.ept, T.ele, T.time, Bool.false_eq_true, ↓reduceIte, appendLast_concat, bind, Except.bind, pure, Except.pure]
 
 /-! ### the whole body -/
 
@@ -270,8 +327,8 @@ def expG (rf : List Tok) (geo : Bool) (r : GRow) : RRow :=
 
 theorem fold_pt (rf : List Tok) (hrf : ReadsIso rf) (geo : Bool) (pos : Option (Dec × Dec × Dec)) (tps : Option Stamp)
     (ts : List (List RRow)) (cur : List RRow) (r : GRow) (ht : Fits r.t) :
-    ∃ pos' tps', (ptLines r).foldlM (gpxLine rf geo) ⟨true, false, pos, tps, ts ++ [cur]⟩
-      = .ok ⟨true, false, pos', tps', ts ++ [cur ++ [expG rf geo r]]⟩ := by
+    ∃ pos' tps', (ptLines r).foldlM (gpxLine rf geo) ⟨true, false, pos, tps, ts ++ [cur], false⟩
+      = .ok ⟨true, false, pos', tps', ts ++ [cur ++ [expG rf geo r]], false⟩ := by
   refine ⟨some ((r.x.toInt, 8), (r.y.toInt, 8), if geo then (r.z.toInt, 8) else (0, 0)), some (project rf r.t), ?_⟩
   unfold ptLines
   simp only [List.foldlM_cons, List.foldlM_nil, gpxLine_pt, bind, Except.bind]
@@ -282,8 +339,8 @@ theorem fold_pt (rf : List Tok) (hrf : ReadsIso rf) (geo : Bool) (pos : Option (
 
 theorem fold_pts (rf : List Tok) (hrf : ReadsIso rf) (geo : Bool) (rows : List GRow) (hrows : ∀ r ∈ rows, Fits r.t)
     (pos : Option (Dec × Dec × Dec)) (tps : Option Stamp) (ts : List (List RRow)) (cur : List RRow) :
-    ∃ pos' tps', ((rows.map ptLines).flatten).foldlM (gpxLine rf geo) ⟨true, false, pos, tps, ts ++ [cur]⟩
-      = .ok ⟨true, false, pos', tps', ts ++ [cur ++ rows.map (expG rf geo)]⟩ := by
+    ∃ pos' tps', ((rows.map ptLines).flatten).foldlM (gpxLine rf geo) ⟨true, false, pos, tps, ts ++ [cur], false⟩
+      = .ok ⟨true, false, pos', tps', ts ++ [cur ++ rows.map (expG rf geo)], false⟩ := by
   induction rows generalizing pos tps cur with
   | nil => exact ⟨pos, tps, by simp [pure, Except.pure]⟩
   | cons r rs ih =>
@@ -355,10 +412,15 @@ theorem gpx_file_roundtrip (rf : List Tok) (hrf : ReadsIso rf) (geo : Bool) (nam
   unfold gpxLines
   obtain ⟨p, t, hp⟩ := fold_pts rf hrf geo rows hrows none none [] []
   simp only [List.nil_append] at hp
-  simp only [List.foldlM_append, List.foldlM_cons, List.foldlM_nil, gpxLine_trk, gpxLine_notags _ _ _ _ (tags_lName name hname.1),
-    gpxLine_notags _ _ _ _ tags_lSeg, bind, Except.bind, pure, Except.pure, List.nil_append]
+  have e0 : gpxLine rf geo {} lTrk = .ok ⟨true, false, none, none, [[]], false⟩ := gpxLine_trk rf geo {} rfl
+  have e1 := gpxLine_notags rf geo ⟨true, false, none, none, [[]], false⟩ _ (tags_lName name hname.1) (noext_lName name hname.1) rfl
+  have e2 := gpxLine_notags rf geo ⟨true, false, none, none, [[]], false⟩ _ tags_lSeg noext_lSeg rfl
+  have e3 := gpxLine_notags rf geo ⟨true, false, p, t, [rows.map (expG rf geo)], false⟩ _ tags_lEndSeg noext_lEndSeg rfl
+  have e4 := gpxLine_endTrk rf geo ⟨true, false, p, t, [rows.map (expG rf geo)], false⟩ rfl
+  have e5 := gpxLine_notags rf geo ⟨false, false, p, t, [rows.map (expG rf geo)], false⟩ _ tags_lEndGpx noext_lEndGpx rfl
+  simp only [List.foldlM_append, List.foldlM_cons, List.foldlM_nil, e0, e1, e2, bind, Except.bind, pure, Except.pure]
   rw [hp]
-  simp only [gpxLine_notags _ _ _ _ tags_lEndSeg, gpxLine_endTrk, gpxLine_notags _ _ _ _ tags_lEndGpx, List.nil_append]
+  simp only [e3, e4, e5]
 
 theorem readsIso_iso : ReadsIso isoFmt := ⟨by decide, fun _ => ⟨['Z'], rfl⟩⟩
 
